@@ -172,6 +172,35 @@ def with_parameters_cases(ctx, li, spec, ops):
     for x in rng.sample(all_types(spec, 1), min(12, len(all_types(spec, 1)))):
         one_case(ctx, li, spec, ops, s, x, family="with_parameters")
     ctx.count("with_parameters_lists")
+    # the list as with_parameters itself builds it, used directly in a signature (the translation above gives every wildcard position its
+    # own variable; here the objects the function returns are what the constraint holds): accepted iff the argument fits an alternative
+    for use_param in (True, False):
+        def mk():
+            return T.with_parameters(*pyops, param=ops[param[0]], at=at) if use_param else T.with_parameters(*pyops)
+        try:
+            sch = T.TypeSchema(lambda a: a ** ops[G.UNIT] [a << mk()])
+            counter[0] = 0
+            alts_d = [data(a) for a in mk()]
+        except Exception as ex:  # noqa
+            ctx.count("with_parameters_error_" + type(ex).__name__)
+            continue
+        for x in rng.sample(all_types(spec, 2), min(16, len(all_types(spec, 2)))):
+            try:
+                sch.apply(G.ty_py(x, ops))
+                accepted = True
+            except T.TypingError:
+                accepted = False
+            except Exception as ex:  # noqa
+                accepted = "X:" + type(ex).__name__
+            want = any(fits(spec, x, alt) for alt in alts_d)
+            ctx.evaluations += 1
+            ctx.count("with_parameters_direct")
+            if accepted is not want:
+                ctx.fail(f"a ** Unit [a << with_parameters({[spec.name(c) for c in comps]}{', param=' + spec.name(param[0]) + ', at=' + str(at) if use_param else ''})] applied to "
+                         f"{G.ty_str(x, spec)}: {'accepted' if accepted is True else ('rejected' if accepted is False else accepted)}, but the argument "
+                         f"{'fits' if want else 'does not fit'} an alternative (wildcards fit anything)",
+                    {"check": "with-parameters-direct", "accepted": str(accepted)},
+                    {"lang": spec.to_json(), "what": "with_parameters", "comps": comps, "param": list(param), "at": at, "use_param": use_param, "x": x})
 
 
 def run(ctx):
@@ -279,7 +308,39 @@ def corpus(ctx):
     one_case(ctx, -1, spec, ops, s2, (9, ()), family="corpus")
 
 
+def replay_with_parameters(inp):
+    from transforge import type as T
+    spec = G.LangSpec([(n, v, p) for n, v, p in inp["lang"]])
+    ops = spec.build()
+    pyops = [ops[c] for c in inp["comps"]]
+    tt = lambda x: (x[0], tuple(tt(a) for a in x[1]))  # noqa
+    x = tt(inp["x"])
+
+    def mk():
+        return T.with_parameters(*pyops, param=ops[inp["param"][0]], at=inp["at"]) if inp["use_param"] else T.with_parameters(*pyops)
+    counter = [0]
+
+    def data(t):
+        t = t.follow()
+        if isinstance(t, T.TypeVariable):
+            counter[0] += 1
+            return ('v', counter[0])
+        return (I.op_index(t.operator, ops), tuple(data(p) for p in t.params))
+    alts_d = [data(a) for a in mk()]
+    sch = T.TypeSchema(lambda a: a ** ops[G.UNIT] [a << mk()])
+    try:
+        sch.apply(G.ty_py(x, ops))
+        accepted = True
+    except T.TypingError:
+        accepted = False
+    want = any(fits(spec, x, alt) for alt in alts_d)
+    print("accepted" if accepted else "rejected", "- fits an alternative:", want)
+    return accepted is want
+
+
 def replay(ctx, payload):
+    if payload["input"].get("what") == "with_parameters":
+        return replay_with_parameters(payload["input"])
     from props.C03 import fix_schema, tt
     inp = payload["input"]
     spec = G.LangSpec([(n, v, p) for n, v, p in inp["lang"]])
